@@ -248,7 +248,7 @@ ADDENDA = {
     "C14": "Negative integers, more unit-sum sizes, sugar objects as declared sum types, bool_value, default width; one Const node whose value is exchanged after its type was asked for (const-replaced). Equal sub-values as one object. Integers at and just beyond the edges of every width (inhabit, or refused). A value obtained from a helper is edited in place before the helper is called again (helpers share nothing with what they handed out). bool_value of true / false things that are not the bool singletons.",
     "C15": "Indices naming freed holes, untracked indices in set_indexed_outputs, one copyable index at two positions, the explicit side through add(Command), track_wires given lists / tuples / generators. Every index given up before set_tracked_outputs (a root left incomplete on one side only is a difference). Indices given as IntEnum members and bools (ints by subclass). track_wires given a node handle (one index per output). Explicit wires that merely implement the Wire protocol.",
     "C16": "Explicit count differing from the op's own; count-less handle on a recycled index; CFG / if-else scenarios with other output counts, both exit entry points; an output port of an open container linked and unlinked before its outputs are set. Counts given together with metadata; inserted builders whose root carries metadata.",
-    "C17": "Mutation operator retype: a value of another JSON type at any position (position classes visited least-mutated-first, replacement kinds in turn; scalar-for-scalar swaps judged under the strict configuration only). Position classes of retype follow the models; a zoo type with every kind of type argument; monitor default-agreement: for every published property default the key is removed from corpus documents and what the decoder fills in is compared with the published default. Extension documents with fixed lowerings. Strings padded with white space (refused by both formalisms where the schema constrains the string, taken as they are elsewhere). Retype also transplants a well-formed object of another model from elsewhere in the same document. Integers replaced by fractional numbers.",
+    "C17": "Mutation operator retype: a value of another JSON type at any position (position classes visited least-mutated-first, replacement kinds in turn; scalar-for-scalar swaps judged under the strict configuration only). Position classes of retype follow the models; a zoo type with every kind of type argument; monitor default-agreement: for every published property default the key is removed from corpus documents and what the decoder fills in is compared with the published default. Extension documents with fixed lowerings. Strings padded with white space (refused by both formalisms where the schema constrains the string, taken as they are elsewhere). Retype also transplants a well-formed object of another model from elsewhere in the same document. Integers replaced by fractional numbers. Two open findings are reported as KNOWN-FINDING (known_findings.json): stale nested validators after the strict rebuild, and a type definition's bound without its tag (accepted by the schema, refused by the decoder), each classified by mechanism.",
     "C18": "Blind histories (nothing read between mutators, before the invariant walk is attached); the inherited mapping surface; histories starting from constructed maps; constructor from equal-not-identical objects, proxies, UserDict, keyword. Constructor arguments also defaultdict / OrderedDict.",
     "C19": "as_dict; constructor iterables and caller-side edits; defaults of register_counts; zero-shot results; a result changed and asked again; key shape of collated counts; collated shots without truncation; more tag shapes. Equal list values of a shot as one object. Float twins of a shot: a multi-shot call is refused exactly when some shot alone is refused. Tuples among the values that are not bits.",
     "C20": "Every rendering is read by Graphviz itself (nop: graph syntax; dot on the node statements alone: HTML-like labels) and a sample is stored with store_dot / DotRenderer.store; cluster count; re-render after the HUGR changed; smallest shapes; HTML-special characters in names and metadata. Hugr.render_dot asked twice with a count-preserving change in between (metadata edited, two links' targets exchanged). Two user-written palettes (pairwise equal colours, a single colour).",
